@@ -1184,10 +1184,14 @@ func addComponentEntries() {
 			}
 		},
 		call: func(c C09Case) outcome {
-			fc, err := layers.NewFC(&layers.FCConfig{Inputs: c.i(0), Outputs: c.i(1)})
+			conf := &layers.FCConfig{Inputs: c.i(0), Outputs: c.i(1)}
+			fc, err := layers.NewFC(conf)
 			if err != nil {
 				panic("harness: " + err.Error())
 			}
+			// the caller reuses its config struct: the layer is configured already
+			conf.Inputs, conf.Outputs, conf.Initializers = -1, c.i(0)+c.i(1), nil
+			evid.Class("C09.config_struct_rewritten_after_construction")
 			var xs []tensor.Tensor
 			for _, a := range c.T {
 				xs = append(xs, a.build())
@@ -1270,7 +1274,11 @@ func addComponentEntries() {
 		if c.k(0) != 0 {
 			conf = &activations.LeakyReluConfig{M: float64(c.i(0))}
 		}
-		return activations.NewLeakyRelu(conf).Forward, nil
+		l := activations.NewLeakyRelu(conf)
+		if conf != nil {
+			conf.M = math.NaN() // the caller reuses its config struct: the layer is configured already
+		}
+		return l.Forward, nil
 	}, yes)
 	act("Softmax", func(c C09Case) (func(...tensor.Tensor) (tensor.Tensor, error), error) {
 		var conf *activations.SoftmaxConfig
@@ -1283,6 +1291,19 @@ func addComponentEntries() {
 				panic("harness: NewSoftmax returned both a value and an error")
 			}
 			return nil, err
+		}
+		if conf != nil {
+			// the caller reuses its config struct (for a construction that would be rejected, or
+			// for another dimension): the layer is configured already
+			switch {
+			case c.k(0) == 1:
+				conf.Dim = -1
+			case conf.Dim != 0:
+				conf.Dim = 0
+			default:
+				conf.Dim = 1
+			}
+			evid.Class("C09.config_struct_rewritten_after_construction")
 		}
 		return sm.Forward, nil
 	}, func(c C09Case) bool {
@@ -1415,6 +1436,10 @@ func addComponentEntries() {
 		if err != nil {
 			return nil, err
 		}
+		if conf != nil {
+			conf.Lower, conf.Upper = 1, 1 // the caller reuses its config struct for a construction that would be rejected
+			evid.Class("C09.config_struct_rewritten_after_construction")
+		}
 		return in, nil
 	}, func(c C09Case) bool { return !nonNil(c) || c.i(0) < c.i(1) })
 	initEntry("Normal", func(c C09Case) (layers.Initializer, error) {
@@ -1425,6 +1450,10 @@ func addComponentEntries() {
 		in, err := initializers.NewNormal(conf)
 		if err != nil {
 			return nil, err
+		}
+		if conf != nil {
+			conf.StdDev = -1 // the caller reuses its config struct for a construction that would be rejected
+			evid.Class("C09.config_struct_rewritten_after_construction")
 		}
 		return in, nil
 	}, func(c C09Case) bool { return !nonNil(c) || c.i(1) > 0 })
@@ -1437,6 +1466,10 @@ func addComponentEntries() {
 		if err != nil {
 			return nil, err
 		}
+		if conf != nil {
+			conf.FanIn = -1 // the caller reuses its config struct for a construction that would be rejected
+			evid.Class("C09.config_struct_rewritten_after_construction")
+		}
 		return in, nil
 	}, func(c C09Case) bool { return nonNil(c) && c.i(1) > 0 })
 	initEntry("HeNormal", func(c C09Case) (layers.Initializer, error) {
@@ -1447,6 +1480,10 @@ func addComponentEntries() {
 		in, err := initializers.NewHeNormal(conf)
 		if err != nil {
 			return nil, err
+		}
+		if conf != nil {
+			conf.FanIn = -1 // the caller reuses its config struct for a construction that would be rejected
+			evid.Class("C09.config_struct_rewritten_after_construction")
 		}
 		return in, nil
 	}, func(c C09Case) bool { return nonNil(c) && c.i(1) > 0 })
@@ -1459,6 +1496,10 @@ func addComponentEntries() {
 		if err != nil {
 			return nil, err
 		}
+		if conf != nil {
+			conf.FanIn, conf.FanOut = -1, -1 // the caller reuses its config struct for a construction that would be rejected
+			evid.Class("C09.config_struct_rewritten_after_construction")
+		}
 		return in, nil
 	}, func(c C09Case) bool { return nonNil(c) && c.i(1) > 0 && c.i(0)+3 > 0 })
 	initEntry("XavierNormal", func(c C09Case) (layers.Initializer, error) {
@@ -1469,6 +1510,10 @@ func addComponentEntries() {
 		in, err := initializers.NewXavierNormal(conf)
 		if err != nil {
 			return nil, err
+		}
+		if conf != nil {
+			conf.FanIn, conf.FanOut = -1, -1 // the caller reuses its config struct for a construction that would be rejected
+			evid.Class("C09.config_struct_rewritten_after_construction")
 		}
 		return in, nil
 	}, func(c C09Case) bool { return nonNil(c) && c.i(1) > 0 && c.i(0)+3 > 0 })
